@@ -21,7 +21,7 @@ type Check struct {
 	Rule           string
 	Assumptions    []string
 	// Known maps a violation class to the id of a known finding it may be
-	// reported under (only if that id is listed in known_findings.jsonl).
+	// reported under (only if that id is listed in known_findings.txt).
 }
 
 var Registry = map[string]*Check{}
@@ -31,7 +31,7 @@ var Registry = map[string]*Check{}
 func Finish(root, prop, tier string, ck *Check, total *explore.Counters, crashes []explore.Crash, start time.Time) int {
 	status := 0
 	harnessErr := false
-	known := explore.LoadKnown(root + "/known_findings.jsonl")
+	known := explore.LoadKnown(root + "/known_findings.txt")
 	listed := map[string]explore.KnownFinding{}
 	for _, k := range known {
 		if k.Kind == "finding" && k.Property == prop {
